@@ -63,6 +63,7 @@ type translator struct {
 	flatBytes  bool                     // []byte values are plain Bytes (nil = empty): for functions whose callers only look at len()
 	funcParams map[string]funcParam     // calls of other functions of the package: parameters of the translation
 	usedFuncs  []string
+	ifaces     map[string]bool // interface types of the file
 }
 
 // funcParam: a function of the package that the translated function calls; the translation takes it
@@ -366,6 +367,12 @@ func (t *translator) expr(e ast.Expr, want trType) string {
 		if _, ok := x.X.(*ast.CompositeLit); ok && x.Op == token.AND && want == tOpaque {
 			return "true" // &T{…}: a non-nil pointer
 		}
+	case *ast.CompositeLit:
+		if id, ok := x.Type.(*ast.Ident); ok && want == tOpaque {
+			if _, isStruct := t.structs[id.Name]; isStruct {
+				return "true" // T{…} stored in an interface: non-nil
+			}
+		}
 	case *ast.BinaryExpr:
 		switch x.Op {
 		case token.ADD, token.SUB:
@@ -604,6 +611,33 @@ func (t *translator) stmts(list []ast.Stmt, ind string) string {
 			}
 			parts = append(parts, t.outs...)
 			return "(" + strings.Join(parts, ", ") + ")"
+		}
+		if len(x.Results) == 1 && len(t.results) > 1 && len(t.outs) == 0 {
+			// return f(args): the results of a function of the package (a parameter of the translation)
+			if call, ok := x.Results[0].(*ast.CallExpr); ok {
+				if id, ok := call.Fun.(*ast.Ident); ok {
+					if fp, ok := t.funcParams[id.Name]; ok && len(fp.res) == len(t.results) && len(call.Args) == len(fp.args) {
+						same := true
+						for i := range fp.res {
+							same = same && fp.res[i] == t.results[i]
+						}
+						if same {
+							seen := false
+							for _, u := range t.usedFuncs {
+								seen = seen || u == id.Name
+							}
+							if !seen {
+								t.usedFuncs = append(t.usedFuncs, id.Name)
+							}
+							callS := "(" + fp.lean
+							for i, a := range call.Args {
+								callS += " " + paren(t.expr(a, fp.args[i]))
+							}
+							return callS + ")"
+						}
+					}
+				}
+			}
 		}
 		if len(x.Results) != len(t.results) {
 			return t.fail("short return")
@@ -920,8 +954,27 @@ func fileStructs(f *ast.File) map[string][]structField {
 	return out
 }
 
-// pointerTo: `*T` for a struct type T of the file.
+// fileInterfaces: the interface types declared in the file (values of such a type: nil / non-nil only).
+func fileInterfaces(f *ast.File) map[string]bool {
+	out := map[string]bool{}
+	for _, d := range f.Decls {
+		if gd, ok := d.(*ast.GenDecl); ok && gd.Tok == token.TYPE {
+			for _, sp := range gd.Specs {
+				ts := sp.(*ast.TypeSpec)
+				if _, ok := ts.Type.(*ast.InterfaceType); ok {
+					out[ts.Name.Name] = true
+				}
+			}
+		}
+	}
+	return out
+}
+
+// pointerTo: `*T` for a struct type T of the file, or an interface type of the file.
 func (t *translator) pointerTo(e ast.Expr) (string, bool) {
+	if id, ok := e.(*ast.Ident); ok && t.ifaces[id.Name] {
+		return id.Name, true
+	}
 	st, ok := e.(*ast.StarExpr)
 	if !ok {
 		return "", false
@@ -966,7 +1019,7 @@ func translateWith(f *ast.File, fset *token.FileSet, recv, name, leanName, failT
 			}
 		}
 	}
-	t := &translator{consts: consts, sconsts: sconsts, vars: map[string]trType{}, structs: fileStructs(f), structVars: map[string]string{}, flatBytes: flat, funcParams: funcs}
+	t := &translator{consts: consts, sconsts: sconsts, vars: map[string]trType{}, structs: fileStructs(f), structVars: map[string]string{}, flatBytes: flat, funcParams: funcs, ifaces: fileInterfaces(f)}
 	var params, ptypes, rtypes []string
 	var structResults []string
 	addStruct := func(v, ty string) {
